@@ -30,6 +30,19 @@ mut('forget leaf_elements.pop', 'C02',
 mut('glob_idx reused for second child', 'C02',
     (MESH, 'child2.glob_idx = self.N_elements + 1',
      'child2.glob_idx = self.N_elements + (1 if ax == 0 else 0)'))
+mut('element counter shared by all meshes of the process (class attribute)', 'C02',
+    (MESH, """        self.N_elements = len(roots)
+""", """        self.N_elements = len(roots)
+        Mesh._count = len(roots)
+"""),
+    (MESH, """        child1.glob_idx = self.N_elements
+        child2.glob_idx = self.N_elements + 1
+        self.N_elements += 2
+""", """        child1.glob_idx = Mesh._count
+        child2.glob_idx = Mesh._count + 1
+        Mesh._count += 2
+        self.N_elements += 2
+"""))
 mut('cross-link children 0<->0', 'C10',
     (MESH, '''                self.children[0].nbr_edge = self.nbr_edge.children[1]
                 self.children[1].nbr_edge = self.nbr_edge.children[0]
